@@ -85,7 +85,7 @@ def w_cmd_wrap(s: str) -> bool:
              rmsvcrt.argv(inner[k + 4:]) == ['prog', s])
 
 
-NAMES = ['a', 'b', 'c']
+NAMES = ['a', 'd/a', 'b']     # two projects share a basename
 RUNS = param('RUNS', 3)
 
 
